@@ -402,17 +402,21 @@ def mkReforming (reformation : Int) : Except ReformingError Calendar :=
         if post.year.tmod 100 == 0 && post.year.tmod 400 != 0 && Month.february.lt post.month
         then post.ordinal + 1 else post.ordinal
       match julian.getJdn post.year ordinal with
-      | none => .error .arithmetic
+      | none => if post.year < 0 then .error .invalidReformation else .error .arithmetic
       | some date =>
         if date ≤ reformation then .error .invalidReformation
         else
           let kind := GapKind.forDates pre.year pre.month post.year post.month
           let preReform : IDate := ⟨pre.year, pre.ordinal, pre.month, pre.day⟩
-          let (postOrdinal, ordinalGapStart, ordinalGap) : Int × Int × Int :=
+          -- the Rust destructures one tuple-valued `match kind`; three matches are the same
+          let postOrdinal : Int :=
+            match kind with | .intraMonth | .crossMonth => preReform.ordinal + 1 | _ => 1
+          let ordinalGapStart : Int :=
+            match kind with | .intraMonth | .crossMonth => post.ordinal - 1 | _ => 0
+          let ordinalGap : Int :=
             match kind with
-            | .intraMonth | .crossMonth =>
-              (preReform.ordinal + 1, post.ordinal - 1, post.ordinal - preReform.ordinal - 1)
-            | _ => (1, 0, post.ordinal - 1)
+            | .intraMonth | .crossMonth => post.ordinal - preReform.ordinal - 1
+            | _ => post.ordinal - 1
           let postReform : IDate := ⟨post.year, postOrdinal, post.month, post.day⟩
           .ok (reforming reformation
                 { preReform, postReform, kind, ordinalGapStart, ordinalGap })
